@@ -147,6 +147,10 @@ def build(prop, components=None, log=print):
         for k, v in st['srcdata'].items():
             if v != 'ok' and (components is None or k in components):
                 st['errors'].append('translator %s: %s' % (k, v))
+        try:
+            st['pins_broken'] = srcdata.pins_broken_for(prop)
+        except Exception as e:  # noqa
+            st['pins_broken'] = ['pins could not be evaluated: %s: %s' % (type(e).__name__, e)]
         p = subprocess.run(['make', '-C', VERIF, 'model'], stdout=subprocess.PIPE, stderr=subprocess.STDOUT, text=True)
         st['make_tail'] = p.stdout[-3000:]
         with open(os.path.join(WORK, 'make.%s.log' % prop), 'w') as f:
